@@ -260,6 +260,19 @@ def cmdTempdir (taken fault : String) : String :=
     | .error e => s!"err {e}"
   | none => "bad-op"
 
+/-- `tempdir-names <hex,hex,...> <fault|N>`: the listing as names (UTF-8) -/
+def cmdTempdirNames (names fault : String) : String :=
+  match decList names with
+  | some l =>
+    match l.mapM (fun b => String.fromUTF8? ⟨b.toArray⟩) with
+    | some ns =>
+      let f : Nat → Option Nat := match fault.toNat? with | some e => fun _ => some e | none => fun _ => none
+      match TempDir.createTempDirN ns f with
+      | .ok n => s!"ok {n}"
+      | .error e => s!"err {e}"
+    | none => "bad-op"
+  | none => "bad-op"
+
 def cmdTempdirConc (taken k sched : String) : String :=
   match decNats taken, k.toNat?, decNats sched with
   | some t, some k, some sc =>
@@ -361,6 +374,7 @@ def step (line : String) : String :=
      | none => "bad-op")
   | ["repeatargs", cookie, i, args] => cmdRepeatArgs cookie i args
   | ["tempdir", taken, fault] => cmdTempdir taken fault
+  | ["tempdir-names", names, fault] => cmdTempdirNames names fault
   | ["tempdir-conc", taken, k, sched] => cmdTempdirConc taken k sched
   | ["lp2", n] => (n.toNat?.map (fun n => toString (Util.lp2 n))).getD "bad-op"
   | ["divup", a, b] =>
